@@ -73,6 +73,14 @@ class Join(Box):
     def _used_rule_names(self):
         return super()._used_rule_names() | self.sep._used_rule_names()
 
+    @cached_property
+    def defines_single(self) -> list[str]:
+        return list({*super().defines_single, *self.sep.defines_single})
+
+    @cached_property
+    def defines_list(self) -> list[str]:
+        return list({*super().defines_list, *self.sep.defines_list})
+
     def _parse(self, ctx: Ctx) -> Any:
         return self._do_parse(ctx, self.exp._parse, self.sep._parse)
 
